@@ -61,7 +61,7 @@ theorem mem_ainsert {α : Type} {k : String} {v : α} {l : List (String × α)} 
 /-- invariant of the consolidation loop for any predicate preserved by "append `d` to `from`" under
     the merge condition -/
 theorem mergeLoop_inv (J : CDR → Prop) (enh : Bool) (d : DR) (ex : List String)
-    (hext : ∀ c, J c → (enh = true → Rel ex c.exportTo) → J { c with frm := c.frm ++ [(d.ns, d.name)] })
+    (hext : ∀ c, J c → (enh = true → Rel ex c.exportTo) → J (mergeInto c d))
     (l : List CDR) (app : Bool) (done : List CDR) (hl : ∀ c ∈ l, J c) (hd : ∀ c ∈ done, J c) :
     ∀ c ∈ (mergeLoop enh d ex l app done).2, J c := by
   induction l generalizing app done with
@@ -78,23 +78,30 @@ theorem mergeLoop_inv (J : CDR → Prop) (enh : Bool) (d : DR) (ex : List String
     cases enh with
     | false =>
       simp only [Bool.false_eq_true, if_false]
-      exact ih _ _ hrest (hdone' _ (hext mdr hmdr (by simp)))
+      split
+      · exact ih _ _ hrest (hdone' _ hmdr)
+      · exact ih _ _ hrest (hdone' _ (hext mdr hmdr (by simp)))
     | true =>
       simp only [if_true]
       by_cases h1 : setEq ex mdr.exportTo = true
       · simp only [h1, if_true, Bool.false_eq_true, if_false]
-        exact ih _ _ hrest (hdone' _ (hext mdr hmdr (fun _ => Or.inl h1)))
+        split
+        · exact ih _ _ hrest (hdone' _ hmdr)
+        · exact ih _ _ hrest (hdone' _ (hext mdr hmdr (fun _ => Or.inl h1)))
       · simp only [h1, if_false, Bool.false_eq_true]
         by_cases h2 : (!mdr.exportTo.isEmpty && setSuperset ex mdr.exportTo) = true
         · simp only [h2, if_true, Bool.false_eq_true, if_false]
-          refine ih _ _ hrest (hdone' _ (hext mdr hmdr (fun _ => Or.inr ?_)))
-          simp only [Bool.and_eq_true, Bool.not_eq_true', List.isEmpty_eq_false_iff] at h2
-          exact h2
+          have hrel : mdr.exportTo ≠ [] ∧ setSuperset ex mdr.exportTo = true := by
+            simp only [Bool.and_eq_true, Bool.not_eq_true', List.isEmpty_eq_false_iff] at h2
+            exact h2
+          split
+          · exact ih _ _ hrest (hdone' _ hmdr)
+          · exact ih _ _ hrest (hdone' _ (hext mdr hmdr (fun _ => Or.inr hrel)))
         · simp only [h2, if_false, Bool.false_eq_true, if_true]
           exact ih _ _ hrest (hdone' _ hmdr)
 
 theorem mergeDR_inv (J : CDR → Prop) (enh : Bool) (p : Pool) (d : DR) (ex : List String)
-    (hext : ∀ c, J c → (enh = true → Rel ex c.exportTo) → J { c with frm := c.frm ++ [(d.ns, d.name)] })
+    (hext : ∀ c, J c → (enh = true → Rel ex c.exportTo) → J (mergeInto c d))
     (hnew : J (newCDR d ex)) (hp : ∀ e ∈ p, ∀ c ∈ e.2, J c) :
     ∀ e ∈ mergeDR enh p d ex, ∀ c ∈ e.2, J c := by
   intro e he c hc
@@ -486,5 +493,67 @@ theorem dr_export_legacy_merge_witness :
     (destinationRule {} (setDestinationRules false {} drs) "ns3" s).map (·.frm) = [[("ns1", "pub"), ("ns1", "only-ns2")]] ∧
     (destinationRule {} (setDestinationRules true {} drs) "ns3" s).map (·.frm) = [[("ns1", "pub")]] := by
   decide +kernel
+
+/-! ### the documented DestinationRule visibility
+
+`DRVisible` above is what the code implements for an unset exportTo: of `defaultDestinationRuleExportTo`
+"we only honor . and *" (and `.` wins when both are present).  The MeshConfig documentation gives that
+field the same syntax as `defaultServiceExportTo` (a namespace list).  `DRVisibleDoc` is the documented
+reading; the two coincide exactly when the mesh default is unset, all `.`, or contains `*` and no `.`. -/
+
+/-- **spec (documentation)**: declared exportTo, or the mesh default when unset -/
+def DRVisibleDoc (m : Mesh) (d : DR) (ns : String) : Prop :=
+  if d.selector = true then d.ns = ns
+  else ExportsTo (if d.exportTo = [] then (match m.defDR with | none => ["*"] | some l => l) else d.exportTo) d.ns ns
+
+/-- mesh defaults on which code and documentation agree -/
+def DRDefaultHonoured (m : Mesh) : Prop :=
+  ∀ l, m.defDR = some l → (l ≠ [] ∧ ∀ x ∈ l, x = ".") ∨ ("*" ∈ l ∧ "." ∉ l)
+
+theorem drVisible_doc_of_honoured {m : Mesh} (hm : DRDefaultHonoured m) {d : DR} {ns : String}
+    (h : DRVisible m d ns) : DRVisibleDoc m d ns := by
+  unfold DRVisible at h
+  unfold DRVisibleDoc
+  by_cases hs : d.selector = true
+  · simpa [hs] using h
+  · simp only [hs, if_false, Bool.false_eq_true] at h ⊢
+    by_cases he : d.exportTo = []
+    · simp only [he, if_true] at h ⊢
+      cases hd : m.defDR with
+      | none => exact Or.inl (by simp)
+      | some l =>
+        simp only [hd] at h ⊢
+        rcases hm l hd with ⟨hne, hall⟩ | ⟨hstar, _⟩
+        · cases l with
+          | nil => exact absurd rfl hne
+          | cons a t =>
+            have ha : a = "." := hall a List.mem_cons_self
+            have hdot : "." ∈ a :: t := ha ▸ List.mem_cons_self
+            exact Or.inr (Or.inl ⟨hdot, h hdot⟩)
+        · exact Or.inl hstar
+    · simpa [he] using h
+
+/-- **dr_export_sound_doc**: `dr_export_sound` against the documented visibility, for mesh defaults the
+    code honours. -/
+theorem dr_export_sound_doc (m : Mesh) (hm : DRDefaultHonoured m) (drs : List DR) (proxyNs : String)
+    (hns : ValidNs proxyNs) (s : Svc) :
+    ∀ c ∈ destinationRule m (setDestinationRules true m drs) proxyNs s,
+      ∀ f ∈ c.frm, ∃ d ∈ drs, f = drKey d ∧ DRVisibleDoc m d proxyNs := by
+  intro c hc f hf
+  obtain ⟨d, hd, hk, hv⟩ := dr_export_sound m drs proxyNs hns s c hc f hf
+  exact ⟨d, hd, hk, drVisible_doc_of_honoured hm hv⟩
+
+/-- **dr_default_namespace_list_witness** (observation O5): with `defaultDestinationRuleExportTo: [ns2]`
+    a DestinationRule without exportTo is, by the documentation, exported to ns2 only, but a proxy of ns3
+    receives it (the code treats every default other than `.` as public); likewise `[., *]` is read as
+    private by the code. -/
+theorem dr_default_namespace_list_witness :
+    let m : Mesh := { defDR := some ["ns2"] }
+    let d : DR := { name := "d", ns := "ns1", ctime := 1, host := "a.com", exportTo := [], selector := false }
+    let s := mkSvc "s" "a.com" "ns1" 1 false [80] []
+    (destinationRule m (setDestinationRules true m [d]) "ns3" s).map (·.frm) = [[("ns1", "d")]] ∧
+    ¬ DRVisibleDoc m d "ns3" := by
+  refine ⟨by decide +kernel, ?_⟩
+  simp [DRVisibleDoc, ExportsTo]
 
 end IstioModel.C07
